@@ -1,5 +1,5 @@
 use super::field_utils::parse_party_identifier;
-use super::swift_utils::{parse_bic, parse_max_length};
+use super::swift_utils::{parse_bic, parse_max_length, parse_swift_chars};
 use crate::errors::ParseError;
 use crate::traits::SwiftField;
 use serde::{Deserialize, Serialize};
@@ -133,6 +133,7 @@ impl SwiftField for Field53B {
             }
             if !lines[1].is_empty() {
                 location = Some(parse_max_length(lines[1], 35, "Field53B location")?);
+                parse_swift_chars(lines[1], "Field53B location")?;
             }
         } else if lines.len() == 1 && !lines[0].is_empty() {
             let line = lines[0];
@@ -148,6 +149,7 @@ impl SwiftField for Field53B {
                 party_identifier = Some(parse_field53b_party_identifier(line)?);
             } else {
                 location = Some(parse_max_length(line, 35, "Field53B location")?);
+                parse_swift_chars(line, "Field53B location")?;
             }
         }
 
@@ -231,6 +233,7 @@ impl SwiftField for Field53D {
                     message: format!("Field 53D line {} exceeds 35 characters", i + 1),
                 });
             }
+            parse_swift_chars(line, &format!("Field 53D line {}", i + 1))?;
             name_and_address.push(line.to_string());
         }
 
